@@ -50,7 +50,7 @@ def originals_wrong(s, fs):
     return [n for n, d in s.files if fs.get(s.paths[n]) != d]
 
 
-def predicates(s, fs, pv, px, py, desc):
+def predicates(s, fs, pv, px, py, desc, strict=False):
     """property predicates on the implementation's own outputs; returns message or None"""
     c = pv.get("counts")
     truth_unusable = len(originals_wrong(s, fs))
@@ -72,12 +72,14 @@ def predicates(s, fs, pv, px, py, desc):
             return "listed as repaired but not the original: %s" % p
     if px["res"] == "ok" and originals_wrong(s, after):
         return "Repair reported success but files differ from their originals: %s" % originals_wrong(s, after)
+    if strict and not c and pv["res"] not in ("panic", "crash"):
+        return "Verify returns an error (%s) although the only defects are lost or damaged data files and parity volumes" % pv["res"]
     if c:
         usable, unusable, pus = int(c[0]), int(c[1]), int(c[2])
         if unusable != truth_unusable or usable != len(s.files) - truth_unusable:
             return "Verify counts %d usable / %d unusable data files, the truth is %d / %d" % (usable, unusable, len(s.files) - truth_unusable, truth_unusable)
         vols_present = sum(1 for v in s.volumes if v in fs and fs[v] == s.created[v])
-        if all(v not in fs or fs[v] == s.created[v] for v in s.volumes) and pus != vols_present:
+        if (strict or all(v not in fs or fs[v] == s.created[v] for v in s.volumes)) and pus != vols_present:
             return "Verify counts %d usable parity volumes, %d are present and intact" % (pus, vols_present)
         if unusable <= pus and py["res"] == "ok" and px["res"] != "ok":
             return "%d unusable data files <= %d usable parity volumes but Repair failed with %s" % (unusable, pus, px["res"])
@@ -167,8 +169,25 @@ def run(ctx):
                 else:
                     fs[p] = d + b"!"
                 how.append(kind)
+            vhow = []
             for v in lv:
-                del fs[v]
+                # a lost volume is deleted or DAMAGED (present but not intact): it must then count as unusable, not stop the operation
+                vb = fs[v]
+                kind = rng.choice(["delete", "delete", "flip", "truncate", "garbage", "empty", "append"])
+                if kind == "delete":
+                    del fs[v]
+                elif kind == "flip":
+                    k = rng.randrange(len(vb)); fs[v] = vb[:k] + bytes([vb[k] ^ (1 << rng.randrange(8))]) + vb[k + 1:]
+                elif kind == "truncate":
+                    fs[v] = vb[:rng.randrange(1, len(vb))]
+                elif kind == "garbage":
+                    fs[v] = L.gen_content(rng, "random", rng.choice([1, 95, 96, 97, len(vb)]))
+                elif kind == "empty":
+                    fs[v] = b""
+                else:
+                    fs[v] = vb + b"\x00"
+                vhow.append(kind)
+            how = how + ["vol:" + k for k in vhow]
             mode = "real" if rng.random() < 0.15 else "mem"
             dirs = [D]
             cases.append({"set": s, "desc": "lost files %s (%s), lost volumes %d/%d" % (list(lf), ",".join(how), len(lv), len(s.volumes)),
@@ -187,7 +206,7 @@ def run(ctx):
         ctx.count("%s|%s" % (id(s), c["desc"]), c["nontrivial"])
         replay = {"lines": [c["vline"], c["rline"]], "mode": c["mode"], "desc": c["desc"], "impl": [a[:1200], x[:1200]], "model": [b[:1200], y[:1200]],
                   "class": {"kind": "subset"}}
-        bad = predicates(s, c["fs"], pv, px, py, c["desc"])
+        bad = predicates(s, c["fs"], pv, px, py, c["desc"], strict=True)
         if bad is None and not c["nontrivial"]:
             cc = pv.get("counts")
             if not cc or cc[4] != "1" or cc[5] != "0":
